@@ -2,6 +2,7 @@ package main
 
 import (
 	"strconv"
+	"strings"
 
 	"verifharness/docs"
 	"verifharness/gen"
@@ -96,4 +97,29 @@ func kindPairsWorkload(r *mon.Run, owner string) mon.Workload {
 				}
 			}
 		}}
+}
+
+// awkwardKeys: member names that read like syntax, contain the delimiters and escapes of the expression language,
+// or a dot (with a decoy: the nested path the dotted name would spell if it were split).
+var awkwardKeys = append([]string{"a.b", "a.b.c", "file.size", "app.kubernetes.io/name", "v1.2", ".", "a.", ".a", "\\", "\\\\", "\"", "\\\"", "a\\\"b", "C:\\\"Program Files\\\"", "\\\\\"", "'", "\\'", "`", "\\`", "a`b\\\"c",
+	"\n", "a\tb", "\u00e9", "e\u0301", "\U0001F600", "\\u00e9", "\\n"}, c14Words...)
+
+// awkwardDoc holds key k with value "own", plus decoys: the nested path a dotted name would mean when split,
+// the name trimmed, lower-cased and upper-cased.
+func awkwardDoc(k string) map[string]interface{} {
+	d := map[string]interface{}{}
+	if parts := strings.Split(k, "."); len(parts) > 1 && parts[0] != "" {
+		var v interface{} = "decoy-nested"
+		for q := len(parts) - 1; q >= 1; q-- {
+			v = map[string]interface{}{parts[q]: v}
+		}
+		d[parts[0]] = v
+	}
+	for _, alt := range []string{strings.TrimSpace(k), strings.ToLower(k), strings.ToUpper(k), strings.Trim(k, "'\"`")} {
+		if alt != k {
+			d[alt] = "decoy-variant"
+		}
+	}
+	d[k] = "own"
+	return d
 }
